@@ -306,7 +306,7 @@ func c14Junk(r *lib.Rng) []byte {
 func c14Contents(r *lib.Rng, lenNew int, wins [][2]int, p *c14Plan) {
 	// length relation
 	lenOld := lenNew
-	switch r.Intn(9) {
+	switch r.Intn(12) {
 	case 0:
 		lenOld = 0
 		p.tag("len:old-empty")
@@ -336,7 +336,7 @@ func c14Contents(r *lib.Rng, lenNew int, wins [][2]int, p *c14Plan) {
 	}
 	eq := make([]bool, common)
 	// base fill
-	switch r.Intn(5) {
+	switch r.Intn(8) {
 	case 0:
 		p.tag("mask:all-different")
 	case 1:
@@ -443,6 +443,39 @@ func c14Contents(r *lib.Rng, lenNew int, wins [][2]int, p *c14Plan) {
 				d = byte(r.Range(1, 5))
 			}
 			nw[i] = old[i] + d
+		}
+	}
+	// a later part of the new file repeats the *beginning* of the old file while the old file
+	// differs there: a session resumed with its old-file reader at the wrong place (offset 0
+	// instead of the saved read offset) would take it for unchanged
+	if len(p.Sess) > 1 && r.Chance(1, 2) {
+		x := 0
+		k := r.Intn(len(p.Sess) - 1)
+		for i := 0; i <= k; i++ {
+			for _, e := range p.Sess[i].Evs {
+				if !e.F {
+					x += e.W
+				}
+			}
+		}
+		l := x
+		if lenNew-x < l {
+			l = lenNew - x
+		}
+		if lenOld < l {
+			l = lenOld
+		}
+		if l > 30000 {
+			l = 30000
+		}
+		if x > 0 && l > 0 {
+			for j := 0; j < l; j++ {
+				nw[x+j] = old[j]
+				if x+j < lenOld {
+					old[x+j] = old[j] + 3
+				}
+			}
+			p.tag("selfsimilar@resume")
 		}
 	}
 	p.Old, p.New = old, nw
@@ -1031,14 +1064,6 @@ func c14Emit(c *Ctx, group string, p *c14Plan, o *c14Obs, corpus string) {
 			nFresh++
 		}
 	}
-	nWrites := 0
-	for _, s := range p.Sess {
-		for _, e := range s.Evs {
-			if !e.F {
-				nWrites++
-			}
-		}
-	}
 	input := map[string]interface{}{"old": lib.ToRle(p.Old).String(), "new": lib.ToRle(p.New).String(), "oldLen": len(p.Old), "newLen": len(p.New),
 		"sessions": c14SessJ(p), "tags": p.Tags}
 	obs := map[string]interface{}{"class": o.Class, "ops": o.Ops, "offsets": o.Offsets, "finalLen": len(o.Final)}
@@ -1048,7 +1073,7 @@ func c14Emit(c *Ctx, group string, p *c14Plan, o *c14Obs, corpus string) {
 	if o.Msg != "" {
 		obs["msg"] = o.Msg
 	}
-	cs := &lib.Case{Group: group, Class: class, Nontrivial: nSkip > 0 && nFresh > 0 && nWrites >= 2,
+	cs := &lib.Case{Group: group, Class: class, Nontrivial: nSkip > 0 && nFresh > 0,
 		Input: input, Obs: obs, Oracle: o.Oracle}
 	if o.Class == "ok" {
 		cs.Coq = c14Coq(p, o)
@@ -1117,6 +1142,15 @@ func c14Corpus() []*c14Plan {
 	out = append(out, mk(rep(1, 9000), cat(rep(1, 9000), rep(2, 500)), one(9500)))
 	out = append(out, mk(rep(1, 9000), nil, c14Sess{}))
 	out = append(out, mk(nil, rep(1, 9000), one(9000)))
+	// new shorter than old and not empty: the tail of the old file must be cut off
+	out = append(out, mk(cat(rep(1, 9000), rep(2, 9000), rep(3, 2000)), cat(rep(1, 9000), rep(7, 500)), one(9500)))
+	// the second session's data equals the *start* of the old file, not the old bytes at its
+	// own offset: only a reader positioned at the saved read offset gets this right
+	{
+		old := cat(rep(1, 10000), rep(2, 10000))
+		nw := cat(rep(1, 10000), rep(1, 10000))
+		out = append(out, mk(old, nw, c14Sess{Evs: []c14Ev{{W: 10000}}}, one(10000)))
+	}
 	return out
 }
 
@@ -1131,12 +1165,15 @@ func runC14(c *Ctx) error {
 			idx++
 		}
 	}
-	n := c.N(70, 1400)
+	n := c.N(56, 600)
+	if c.Tier == "search" {
+		n = 500
+	}
 	for i := 0; i < n; i++ {
 		cr := r.Fork()
 		p := c14Gen(cr, c.Thorough())
 		group := "ow"
-		if i%4 == 3 {
+		if i%3 == 2 {
 			group = "bowl"
 		}
 		if err := c14Case(c, idx, group, p, cr, ""); err != nil {
